@@ -63,6 +63,8 @@ Record pmsg := PM {
 
 Definition e_nodelay : N := 1%N.      (* errors.New("message doesn't have a delay set") *)
 Definition no_handler : N := 2%N.     (* "<no handler>" *)
+Definition e_panic : N := 3%N.        (* not an error value: the wrapped publisher's Publish PANICKED; as a
+                                         script answer / call result it means "the call ended in that panic" *)
 
 Inductive source := SrcCtx | SrcGen.
 Inductive decision :=
@@ -134,6 +136,16 @@ Definition or_default (d v : N) : N := if N.eqb v 0%N then d else v.
 Definition pub_label (name : N) (m0 : pmsg) (res : option N) : plabel :=
   (or_default no_handler (pm_hname m0), or_default name (pm_pname m0),
    match res with None => true | Some _ => false end).
+
+(** variant of the success label: [fixed = false] is the code as pinned, whose deferred observer
+    sees err == nil while a panic of the wrapped publisher propagates (the pattern of D11) *)
+Definition pub_success (fixed : bool) (res : option N) : bool :=
+  match res with
+  | None => true
+  | Some e => N.eqb e e_panic && negb fixed
+  end.
+Definition pub_label_v (fixed : bool) (name : N) (m0 : pmsg) (res : option N) : plabel :=
+  (or_default no_handler (pm_hname m0), or_default name (pm_pname m0), pub_success fixed res).
 
 Record pout := PO {
   po_script : list (option N);   (* what is left of the inner publisher's script *)
